@@ -11,6 +11,7 @@ import ast
 from ..index import dotted, walk_no_nested, norm_text, AnalysisError
 from .. import util as U
 from .. import flow as F
+from ..cfg import describe_path
 from ..dtable import Interp, txt, fmt_val
 
 SQLT = 'wpull.database.sqltable'
@@ -1071,9 +1072,44 @@ def _from_kwargs(sql, target, it, key, value, kw):
     return okk and isinstance(value, ast.Name) and value.id == v
 
 
+def d2_replace_order(ctx):
+    """ItemSession.add_child_url(replace=True): the old row goes before the new one is offered.  add_url may flush its batch at
+    once (every 1000th entry): offered first, INSERT OR IGNORE keeps the old row, and the removal that follows deletes the URL for
+    good - a URL the caller re-added is gone with its status and try count."""
+    repo, ck = ctx.repo, ctx.check
+    ac = repo.func('wpull.pipeline.session:ItemSession.add_child_url')
+    cfg = ctx.cfg(ac)
+    rem = [n for n in cfg.stmt_nodes() if any(U.attr_name(c) in ('remove_many', 'remove_one') for c in F.node_calls(n))]
+    add = [n for n in cfg.stmt_nodes() if any(U.attr_name(c) in ('add_url', 'add_many', 'add_one') for c in F.node_calls(n))]
+    if not rem or not add:
+        raise AnalysisError('ItemSession.add_child_url: remove / add calls not found')
+    p = None
+    for a in add:
+        p = p or cfg.find_path(a, lambda n: n in rem, edge_ok=F.normal)
+    ck.expect(p is None, 'C14-D2', ac.qual, 'replace: remove_many([url]) before add_url(url, ...)',
+              'the replaced URL is offered to the table before the old row is removed: when the offer is flushed at once (a full batch) it is '
+              'ignored as a duplicate and the removal then deletes the URL altogether', ac.loc(rem[0].stmt), path=describe_path(p) if p else None)
+
+
 def d2_remove_many(ctx):
     repo, ck = ctx.repo, ctx.check
     fi = repo.func(TABLE + '.remove_many')
+    # "only removal deletes" - and removal does delete: the model declares foreign keys without ON DELETE CASCADE (queued_files ->
+    # queued_urls), SQLite ignores them unless asked; with enforcement on, removing a finished URL that has a file row fails
+    lite = repo.cls('wpull.database.sqltable:SQLiteURLTable')
+    pc = lite.methods.get('_apply_pragmas_callback')
+    fk_on = False
+    if pc is not None:
+        for c in U.calls(pc.node, attr='execute'):
+            if c.args and isinstance(c.args[0], ast.Constant) and isinstance(c.args[0].value, str):
+                t = c.args[0].value.strip().lower().replace(' ', '')
+                if t.startswith('pragmaforeign_keys=') and t.split('=')[1] in ('on', '1', 'true', 'yes'):
+                    fk_on = True
+    cascades = all(any(k.arg == 'ondelete' for k in c.keywords) for c in ast.walk(repo.module('wpull.database.sqlmodel').tree)
+                   if isinstance(c, ast.Call) and isinstance(c.func, ast.Name) and c.func.id == 'ForeignKey')
+    ck.expect(not fk_on or cascades, 'C14-D2', fi.qual, 'removal is not blocked by rows that refer to the URL',
+              'PRAGMA foreign_keys=ON while the model\'s foreign keys have no ON DELETE action: remove_many / remove_one / '
+              'add_child_url(replace=True) of a URL that has a queued_files row raises IntegrityError and the row stays', fi.loc())
     sql = Sql(repo, fi.module)
     ob = Ob(ck, 'C14-D2', fi)
     N_DEL = 'delete(QueuedURL) where url_string_id == id of each given URL, executed per URL'
@@ -1715,6 +1751,12 @@ def _d4_method(ctx, base, wrap, bm, wm, leaves, where):
     ck.expect(p is None and bool(cn) and not inloop, 'C14-D4', where, 'forwarded on every normal path, once',
               'the override can return without calling the wrapped table (or calls it repeatedly)', wm.loc(call),
               path=None)
+    # ... and does not answer on the table's behalf: no explicit raise (NotFound from a counter of its own) before the call
+    raisers = [n for n in cfg.stmt_nodes() if isinstance(n.stmt, ast.Raise)]
+    pr = cfg.find_path(cfg.entry, lambda n: n in raisers, edge_ok=F.normal, stop=lambda n: n in cn) if raisers else None
+    ck.expect(pr is None, 'C14-D4', where, 'no answer of its own before the wrapped table is asked',
+              'the override raises before it has called the wrapped table: what it reports (not found, ...) comes from bookkeeping of the '
+              'wrapper - a counter that starts at 0 in every process - not from the rows', wm.loc(raisers[0].stmt) if raisers else loc)
     # ---- arguments
     defs = U.local_defs(wm.node)
     problems = []
@@ -1886,6 +1928,12 @@ def run(ctx):
     d2_update_one(ctx)
     d2_release(ctx)
     d2_remove_many(ctx)
+    d2_replace_order(ctx)
+    if getattr(ctx, 'prop', None) == 'C14':
+        # reopening: rows a previous process left in progress go back to todo before anything is handed out (rule shared with C03)
+        from . import c03 as _c03
+        from .common import RemapCtx as _RC
+        _c03.d3_release_at_startup(_RC(ctx, {'C03-D3': 'C14-D2'}))
     d2_writers(ctx)
     d2_to_plain(ctx)
     d2_add_urls(ctx)
